@@ -34,8 +34,8 @@ def tla_set(xs):
 
 
 def write_cfg(path, classes, bound, export=True, invariants=True):
-    b = dict(MaxStories=3, Layouts=["plain", "both", "nt1", "blank", "attr"], MaxSrc=2, MaxCarried=2,
-             MaxItems=3, ILayouts=["bare", "mixed"])
+    b = dict(MaxStories=3, Layouts=["plain", "both", "nt1", "blank", "attr", "leadlast"], MaxSrc=2, MaxCarried=2,
+             MaxItems=3, ILayouts=["bare", "mixed", "itemfirst"])
     b.update(bound or {})
     lines = ["SPECIFICATION Spec", "CONSTANTS",
              "  Classes = %s" % tla_set(classes),
